@@ -529,6 +529,9 @@ func (a *AddrManager) updateManagedAddress(dbTransaction db.ReadTransaction, man
 		return err
 	}
 	// touch memory only when nothing can fail any more
+	// (under a.mu: CountAddresses, ListAddresses, ... read the same state through a handle)
+	a.mu.Lock()
+	defer a.mu.Unlock()
 	for _, managedAddress := range managedAddresses {
 		a.addrs[managedAddress.address] = managedAddress
 	}
@@ -738,6 +741,8 @@ func (a *AddrManager) Name() string {
 }
 
 func (a *AddrManager) Remarks() string {
+	a.mu.Lock()
+	defer a.mu.Unlock()
 	return a.remark
 }
 
